@@ -176,7 +176,7 @@ CLAIMED = {
         "IO panels for every state, identity of exposed channels, hidden/connected rules, return dictionary, bijectivity of maps, "
         "invariant over every edit history; refuted witnesses for key collisions (known findings S18, S33). Edit histories are "
         "run on real Workflows and compared step by step with the model; the oracle checks the characterisation directly.",
-   design="7/C15", technique="Coq proof of a characterisation + invariant over histories + differential correspondence + oracle",
+   design="7/C15", technique="Coq proof of a characterisation + invariant over histories + Workflow._build_io REGENERATED from workflow.py on every run and proved equal to the model's build_io (translator tie) + differential correspondence + oracle",
    note="Availability theorem is partial (guard: no scoped-label collision, no map name shadowing a default key). Per-step "
         "observations are compared through a 61-bit hash computed alike on both sides (TRUSTED in evidence). Type hints, executors, "
         "failing children not covered here."),
